@@ -182,6 +182,8 @@ pub struct World {
     pub auto: Option<GOut>,
     /// back-pressure: while set, poll_ready of every instance answers Pending (and nobody is woken)
     pub block_ready: bool,
+    /// while > 0 the next Service::call of the wrapped service panics (before anything is logged)
+    pub call_panic: usize,
     pub clock0: tokio::time::Instant,
 }
 impl World {
@@ -196,6 +198,7 @@ impl World {
             immediate: vec![],
             auto: None,
             block_ready: false,
+            call_panic: 0,
             clock0: tokio::time::Instant::now(),
         }
     }
@@ -262,6 +265,11 @@ impl tower::Service<Req> for Inner {
     }
     fn call(&mut self, req: Req) -> GateFut {
         let mut g = self.w.lock().unwrap();
+        if g.call_panic > 0 {
+            g.call_panic -= 1;
+            drop(g);
+            panic!("injected panic in Service::call of the wrapped service");
+        }
         let i = g.gates.len() + 1;
         let inst = self.inst;
         if g.track_inst {
@@ -377,6 +385,11 @@ pub struct Sim {
     /// coupled clocks: every millisecond of virtual time also passes on the real clock (std::time), so that code which
     /// reads the wall clock for a decision sees at least the virtual elapsed time
     pub real_sleep: bool,
+    /// sees every event this simulator writes (in-situ runs forward the passage of time to the layer traces)
+    pub tap: Option<Box<dyn FnMut(&Obj)>>,
+    cp_mark: bool,
+    pub seed: u64,
+    pub run: usize,
 }
 
 fn panic_msg(e: Box<dyn std::any::Any + Send>) -> String {
@@ -402,6 +415,10 @@ impl Sim {
             hold_finished: false,
             zombies: BTreeMap::new(),
             real_sleep: false,
+            tap: None,
+            cp_mark: false,
+            seed: 0,
+            run: 0,
         }
     }
     pub fn now_ms(&self) -> u64 {
@@ -410,6 +427,9 @@ impl Sim {
     /// Start a new run: drop everything, fresh world, write the reset line.
     pub fn reset(&mut self, comp: &str, cfg: &Value, seed: u64, run: usize) {
         self.obs = None;
+        self.tap = None;
+        self.seed = seed;
+        self.run = run;
         self.callers.clear();
         self.zombies.clear();
         self.hold_finished = false;
@@ -469,6 +489,9 @@ impl Sim {
                 m.insert(k, v);
             }
         }
+        if let Some(t) = self.tap.as_mut() {
+            t(&m);
+        }
         self.lines.push(Value::Object(m).to_string());
         self.n_events += 1;
     }
@@ -483,9 +506,19 @@ impl Sim {
         }
     }
     /// Register a caller whose future `mk` builds (poll_ready + call happen inside `mk`).
+    /// like create, but a call of the wrapped service made during this Service::call panics
+    pub async fn create_cp(&mut self, c: usize, req: Req, mk: &mut dyn FnMut(&Req) -> CallFut) {
+        self.w.lock().unwrap().call_panic = 1;
+        self.cp_mark = true;
+        self.create(c, req, mk).await;
+    }
     pub async fn create(&mut self, c: usize, req: Req, mk: &mut dyn FnMut(&Req) -> CallFut) {
         let r = catch_unwind(AssertUnwindSafe(|| mk(&req)));
+        self.w.lock().unwrap().call_panic = 0;
         let mut m = Sim::ev("create");
+        if std::mem::take(&mut self.cp_mark) {
+            m.insert("cp".into(), json!(1));
+        }
         m.insert("c".into(), json!(c));
         m.insert("key".into(), json!(req.key));
         match r {
